@@ -18,7 +18,7 @@ from vf.runner import Violation
 ID = "C10"
 LEVEL = "exploration"
 TECHNIQUE = "bounded-exhaustive enumeration of array shapes and operator forms + random values (Hypothesis), differential vs numpy"
-RULE = ("cases = (form in {element-wise, scalar-on-the-right, scalar-on-the-left, dot, aggregate}, operator, operand element kinds, "
+RULE = ("cases = (form in {element-wise, scalar-on-the-right, scalar-on-the-left, dot, aggregate, aggregate inside an element-wise operation, compound arrayed operand A o (B o A) / (A o B) o A / s o (A o B)}, operator, operand element kinds, "
         "shapes m x n for m,n <= 4 incl. vectors, indexed or named [same / permuted / different names], matching or mismatching); "
         "every accepted result is compared entry by entry with numpy on the evaluated operand entries, mismatching operands must "
         "raise. non-trivial = non-square or degenerate (1 x n, n x 1, 1 x 1) shape, or named indices, or scalar on the left, AND the "
